@@ -1,6 +1,6 @@
 (* GENERATED on every run by harness/props/c12_gen.py from the Python source - do not edit.
    engine/control.py sha256 40a50eb3954ca617, engine/__init__.py sha256 c6771931763c4beb,
-   engine/context.py sha256 0d32da1548b35cc6 *)
+   engine/context.py sha256 1de2d7fb46aa4806 *)
 From Coq Require Import Arith Bool List.
 From Verif Require Import C11.Model_C11.
 
@@ -34,8 +34,6 @@ Fixpoint gen_assoc_get {K V : Type} (eqb : K -> K -> bool) (k : K) (d : list (K 
   end.
 
 Definition gen_cache_outcome {K V : Type} (d : list (K * V)) (k : K) (v : V) : list (K * V) :=
-  let d := (if (Nat.leb 2048 (length d)) then let d := nil in
-  d else d) in
   let d := cons (k, v) d in
   d.
 
